@@ -231,6 +231,15 @@ class Engine(  # pylint:disable=too-few-public-methods
     def dtype(cls, data_type: Any) -> dtypes.DataType:
         """Convert input into a pandas-compatible
         Pandera :class:`~pandera.dtypes.DataType` object."""
+        if (
+            PYARROW_INSTALLED
+            and PANDAS_2_0_0_PLUS
+            and isinstance(data_type, pyarrow.DataType)
+        ):
+            # a pyarrow type compares and hashes equal to its printed name
+            # ("bool", "string", "float"): look it up as the pandas dtype
+            # it denotes, not under that string
+            data_type = pd.ArrowDtype(data_type)
         try:
             return engine.Engine.dtype(cls, data_type)
         except TypeError:
